@@ -451,3 +451,16 @@ Example expression_example :
 Proof.
   split; [cbn; repeat split; solve [reflexivity | discriminate | lia]|]. split; [cbn; repeat split|]. split; vm_compute; reflexivity.
 Qed.
+
+(* casts and sizeof of a type name: `((unsigned long) (a + 1)) * (sizeof(int))` *)
+Definition ex_c : ex :=
+  XBin (s2l "*") (XCast [(K_UNSIGNED, s2l "unsigned"); (K_LONG, s2l "long")] (XBin (s2l "+") (XId (s2l "a")) (XConst K_INT_CONST_DEC (s2l "1") (s2l "int"))))
+       (XSizeofT [(K_INT, s2l "int")]).
+Example cast_example :
+  wf ex_c /\ ids_nb ex_c /\
+  visit nat false 80 (embC nat ex_c) 0%Z = GOk (s2l "((unsigned long) (a + 1)) * (sizeof(int))", 0%Z) /\
+  map fst (xt false ex_c) = [K_LPAREN; K_LPAREN; K_UNSIGNED; K_LONG; K_RPAREN; K_LPAREN; K_ID; K_PLUS; K_INT_CONST_DEC; K_RPAREN; K_RPAREN; K_TIMES;
+                             K_LPAREN; K_SIZEOF; K_LPAREN; K_INT; K_RPAREN; K_RPAREN].
+Proof.
+  split; [cbn; repeat split; solve [reflexivity | discriminate | lia | repeat constructor]|]. split; [cbn; repeat split|]. split; vm_compute; reflexivity.
+Qed.
